@@ -671,7 +671,22 @@ def _point(ctx, bud, Z, e, g1, g2, how, ulps=8, atom=None):
         else:
             ctx.observe('f1.err_over_bracket_scale', 1e-10 * abs(g1 - r.f1) / r.tol1 if r.tol1 else 0.0)
     else:
-        ctx.count('f1.unconstrained_next_to_missing')
+        # a row of the pair (or the row itself) has no f1: '-9999' in the file is "not available", not a number to
+        # interpolate with - clear of the nodes (where an ulp of unit conversion decides the segment) the answer is
+        # "unknown" (NaN), never a value made from the marker
+        j = r.segment
+        clear = all(abs(e - tab.E[k]) > 16 * math.ulp(tab.E[k]) for k in (j, j + 1))
+        at_missing_node = any(e == tab.E[k] and tab.f1[k] is None and
+                              (k == 0 or tab.f1[k - 1] is None) and (k == tab.n - 1 or tab.f1[k + 1] is None)
+                              for k in (j, j + 1))
+        if clear or at_missing_node:
+            ctx.evaluated(1, 'f1_missing_is_nan')
+            if not _isnan(g1):
+                bud.violation('%s %s: f1(%r keV) = %r although a row next to that energy (rows %d,%d: f1 %r, %r) has no '
+                              'f1 (-9999 in the table file)' % (who, how, e, g1, j, j + 1, tab.f1[j], tab.f1[j + 1]),
+                              kind='f1-missing-not-nan', Z=Z, energy=e, got=g1)
+        else:
+            ctx.count('f1.unconstrained_next_to_missing')
 
 
 def _sweep(ctx, bud, Z, atom, energies, how, scalar=True, wavelength=False, buf=None):
@@ -1175,6 +1190,30 @@ def check_compound(ctx, case):
             if not (okb and okd):
                 bud.violation('index_of_refraction(%s, density=%r, %s=%r) = %r, 1 - lambda^2/(2 pi)(rho + i irho)1e-6 = %r'
                               % (name, rho, route, kw[route], nv, complex(1 - delta, -beta)), kind='refraction')
+    elif judged and boundary and all(xr.table(k[0]).sharp_ends for k in comp) and \
+            any(E == b for k in comp for b in (xr.table(k[0]).emin, xr.table(k[0]).emax)):
+        # exactly the first / last node of a constituent's table, given as energy=: the energy is a table node, inside
+        # the range, and the caller's number is exact - the refraction index is the documented formula there too
+        # (an implementation that goes energy -> wavelength -> energy must not drift off the table by an ulp)
+        r = xr.sld(comp, rho, E, ulps=64)
+        if r.inside and not r.excluded and r.rho_defined:
+            wl = xr.wavelength(E)
+            nv = complex(xsf.index_of_refraction(obj, density=rho, energy=E))
+            delta, beta = xr.refraction(r.rho, r.irho, wl)
+            f = wl ** 2 / (2 * math.pi) * 1e-6
+            ctx.evaluated(2, 'refraction_at_end_node')
+            ctx.count('refraction_at_end_node')
+            if not (abs(-nv.imag - beta) <= f * r.tol_irho + 1e-12 * abs(beta) + 2e-16 and
+                    abs((1 - nv.real) - delta) <= f * r.tol_rho + 1e-12 * abs(delta) + 4e-16 * max(1.0, abs(delta))):
+                bud.violation('index_of_refraction(%s, density=%r, energy=%r) [the energy is the end node of a table] = %r, '
+                              '1 - lambda^2/(2 pi)(rho + i irho)1e-6 = %r' % (name, rho, E, nv, complex(1 - delta, -beta)),
+                              kind='refraction-at-end-node')
+            refl = np.asarray(xsf.mirror_reflectivity(obj, density=rho, energy=np.array([E]), angle=np.array([0.1, 1.0])))
+            ctx.evaluated(1, 'mirror_at_end_node')
+            if not np.all((refl >= 0) & (refl <= 1)):
+                bud.violation('mirror_reflectivity(%s, density=%r, energy=[%r]) [end node of a table] = %r, not in [0, 1]'
+                              % (name, rho, E, refl.tolist()), kind='mirror-at-end-node')
+    if judged and not boundary:
         if len(case['more']) > 0:
             # the array already given to xray_sld when there is one (one energy grid, several functions)
             ev = arg if form == 'array' else np.array([E] + list(case['more']))
